@@ -30,7 +30,7 @@ ASSUMPTIONS = ['file system = MFS: open(w) truncates at once, buffered data is p
 OUTSIDE = ['FigureData, H5Data (C-level file access)', 'two crashes in a row', 'crashes inside config loading']
 REACH = ['recovers', 'visible=>complete', 'dir-error-set-aside', 'continues-keeps-tmp']
 
-KINDS = ['json', 'gen', 'lazy', 'npy', 'listnpy', 'pd', 'dir', 'cont']
+KINDS = ['json', 'gen', 'lazy', 'npy', 'listnpy', 'pd', 'dir', 'cont', 'mem']
 
 
 def bounds(tier):
@@ -63,6 +63,8 @@ def make_harness(case, tier):
     spec = spec_for(kind)
 
     def harness(ctx):
+        if kind == 'mem' and (fault != 'raise' or mode == 'forced'):
+            return
         world = hist.World(spec, [{}])
         ref = hist.Ref(spec, [{}])
         fs = world.fs
@@ -76,6 +78,7 @@ def make_harness(case, tier):
         info = {'kind': kind, 'mode': mode, 'fault': fault}
         expected = ref.ev(k)['work']['value']
         crash_spec = None
+        retry_same = False
         # ---- the faulted request
         if fault in ('raise', 'late'):
             point = 'work' if fault == 'raise' else {'dir': 'work/late', 'cont': 'work/late', 'gen': 'work/item',
@@ -93,6 +96,7 @@ def make_harness(case, tier):
             got = world.request(k, 'work')
             family.FAIL.pop(point, None)
             ctx.check_concrete(got[0] == 'exc', 'fault-propagates', dict(info, got=repr(got)[:200]))
+            retry_same = ctx.flag('retry_on_same_object')
         elif fault == 'mistyped':
             import taskchain.task as TT
             orig = type(task).run
@@ -200,6 +204,13 @@ def make_harness(case, tier):
                 ok = tmp.exists() and not errd.exists() and (fault == 'raise' or (tmp / 'part0.json').exists())
                 ctx.check_concrete(ok, 'continues-keeps-tmp', dict(info, error_dir=errd.exists(), tmp=tmp.exists(),
                                                                    result=res.exists()))
+        if fault in ('raise', 'late') and retry_same:
+            # requesting the value again -- same chain, same task object -- runs it again and recovers
+            mark0 = world.mark()
+            again = world.request(k, 'work')
+            ok0 = again[0] == 'ok' and family.norm_input(again[1]) == expected and \
+                'work' in [r[0] for r in world.runs_since(mark0)]
+            ctx.check_concrete(ok0, 'recovers', dict(info, retry='same task object', got=repr(again)[:200]))
         # ---- restart and look at what a later chain finds
         if not _rp.MODE['replay']:
             fs.reboot()
